@@ -407,7 +407,23 @@ func parseModel(out string) map[string]string {
 // undetected seed is reported in the evidence, never as a VIOLATION.
 func (r *Report) selfTest(id string) []map[string]interface{} {
 	var out []map[string]interface{}
-	seeds, _ := filepath.Glob(filepath.Join(verifRoot, "seeded", id+"-*", "patch.diff"))
+	all, _ := filepath.Glob(filepath.Join(verifRoot, "seeded", "*", "patch.diff"))
+	var seeds []string
+	for _, patch := range all {
+		dir := filepath.Dir(patch)
+		name := filepath.Base(dir)
+		props := []string{strings.SplitN(name, "-", 2)[0]}
+		// <seed>/checks names the property checks a change falls under when that is not (only) its own
+		if b, err := os.ReadFile(filepath.Join(dir, "checks")); err == nil {
+			props = strings.Fields(string(b))
+		}
+		for _, p := range props {
+			if p == id {
+				seeds = append(seeds, patch)
+			}
+		}
+	}
+	sort.Strings(seeds)
 	for _, patch := range seeds {
 		res := map[string]interface{}{"seed": filepath.Base(filepath.Dir(patch))}
 		dir, err := os.MkdirTemp("", "govc-selftest-")
